@@ -223,15 +223,49 @@ fn one_case(run: &Run, case: u64) {
             return;
         }
     }
+    // (d) the same exclusions combined with a subtree selection: what is listed / restored is
+    // the part of the rule's set at or below S
+    let dirs: Vec<&String> = snap.iter().filter(|(p, n)| n.kind == Kind::Dir && p.as_str() != "/" && !model.excluded(p)).map(|(p, _)| p).collect();
+    if !dirs.is_empty() {
+        let s_dir = (*rng.pick(&dirs)).clone();
+        let want: BTreeSet<String> = expected_set.iter().filter(|p| tree::is_under(p, &s_dir)).cloned().collect();
+        let l = cs::list(cs::local(&arch_f), Some(0), &s_dir, &pats);
+        let Some(listed) = l.value() else {
+            run.violation("list-with-excludes-and-subtree-failed", l.describe(), replay);
+            return;
+        };
+        let listed: BTreeSet<String> = listed.iter().map(|e| e.apath.clone()).collect();
+        let dest2 = sc.join("dest2");
+        let r = cs::restore(cs::local(&arch_f), Some(0), &dest2, Some(&s_dir), &pats, false);
+        if !r.clean() {
+            run.violation("restore-with-excludes-and-subtree-reported-errors", format!("subtree {s_dir}: {}", r.describe()), replay);
+            return;
+        }
+        // the directories above S are created on the way
+        let restored: BTreeSet<String> = tree::snapshot(&dest2).expect("snapshot").keys().filter(|p| p.as_str() != "/" && !(tree::is_under(&s_dir, p) && **p != s_dir)).cloned().collect();
+        run.count("observations_compared", 2);
+        run.count("subtree_and_exclude_combinations", 1);
+        for (name, got) in [("list", &listed), ("restore", &restored)] {
+            if got != &want {
+                let dropped_extra = got.is_subset(&want);
+                run.violation(
+                    format!("{name}-with-excludes-and-subtree-differs-from-rule:{}", if dropped_extra { "dropped-too-much" } else { "kept-too-much" }),
+                    format!("patterns {pats:?}, subtree {s_dir}: {name} vs rule: {}", diff(got, &want)),
+                    replay,
+                );
+                return;
+            }
+        }
+    }
 }
 
 pub fn run(tier: Tier, replay: Option<Value>) -> i32 {
     let run = Run::new("C15", "exploration", tier, replay);
     run.par_cases(tier.pick(3000, 300000), super::threads(), |c| one_case(&run, c));
     run.finish(
-        "generated trees (depth <= 4, names with extensions, upper/lower case, digits, non-ASCII) x sets of 1-4 (one case in twelve: 8-15) exclusion patterns instantiated from the tree: anchored file and directory paths, bare names, '*.ext', '?x', 'd/*/f', '**/n', 'd/**', '[ab]*', '[!a-z]*', 'é*', '/d/*', '/*.ext', '/*/name', 'dir?child' and 'dir[!a]child' (which must not match across the separator), '{a,b}' and '/{a,b}', '**/n/**', '/d/**/n', a name in the other case (must not match), 'c*' and '/c*', '**' glued to a name ('c**', '/c**', '**c'). Observed: (a) the paths stored by backup(exclude=E) decoded independently, (b) iter_entries(full backup, exclude=E), (c) the paths created by restore(full backup, exclude=E); all three must equal, below the root, the set given by the rule 'omitted iff the path or an ancestor matches a pattern' evaluated with globs the harness builds from the raw patterns (leading '/' anchors at the root, otherwise any depth). Non-trivial = some but not all paths excluded.",
+        "generated trees (depth <= 4, names with extensions, upper/lower case, digits, non-ASCII) x sets of 1-4 (one case in twelve: 8-15) exclusion patterns instantiated from the tree: anchored file and directory paths, bare names, '*.ext', '?x', 'd/*/f', '**/n', 'd/**', '[ab]*', '[!a-z]*', 'é*', '/d/*', '/*.ext', '/*/name', 'dir?child' and 'dir[!a]child' (which must not match across the separator), '{a,b}' and '/{a,b}', '**/n/**', '/d/**/n', a name in the other case (must not match), 'c*' and '/c*', '**' glued to a name ('c**', '/c**', '**c'). Observed: (a) the paths stored by backup(exclude=E) decoded independently, (b) iter_entries(full backup, exclude=E), (c) the paths created by restore(full backup, exclude=E); all three must equal, below the root, the set given by the rule 'omitted iff the path or an ancestor matches a pattern' evaluated with globs the harness builds from the raw patterns (leading '/' anchors at the root, otherwise any depth). (d) list and restore of the full backup with the exclusions AND a subtree selection S (a directory the rule keeps) must give the part of that set at or below S. Non-trivial = some but not all paths excluded.",
         &["globset's matcher is trusted for what a single glob matches; anchoring, ancestor propagation and the three code paths are what is checked"],
         None,
-        &[("observations_compared", 100), ("cases_excluding_some_but_not_all", 30), ("cases_excluding_a_directory_with_children", 10)],
+        &[("observations_compared", 100), ("cases_excluding_some_but_not_all", 30), ("cases_excluding_a_directory_with_children", 10), ("subtree_and_exclude_combinations", 100)],
     )
 }
